@@ -313,6 +313,46 @@ func init() {
 		exec: func(w *World, st *Step) {}})
 }
 
+func init() {
+	// wide: a bitmap with hundreds of chunks of mixed kinds (long key tables, offset headers,
+	// batch boundaries in writers), then an operation of the profile's flavour on it
+	reg(&opDef{name: "wide", tag: "C02",
+		gen: func(w *World, r *Rng) (Step, bool) {
+			if w.regionsLive() >= maxRegions-1 {
+				return Step{}, false
+			}
+			b := w.slot(r)
+			n := 200 + r.Intn(700)
+			k0 := uint16(r.Intn(65536 - n - 8))
+			if r.Chance(1, 4) {
+				k0 = uint16(65536 - n - r.Intn(4) - 1)
+			}
+			steps := []Step{{Op: "clear", S: []int{b}}, {Op: "addmany", S: []int{b}, A: []uint64{uint64(k0), 7, uint64(n), r.U64()}}}
+			for i := 0; i < 3+r.Intn(5); i++ {
+				steps = append(steps, w.kindSteps(r, b, k0+uint16(r.Intn(n)))...)
+			}
+			d := (b + 1 + r.Intn(len(w.B)-1)) % len(w.B)
+			switch r.Intn(6) {
+			case 0:
+				steps = append(steps, Step{Op: "freeze", S: []int{d, b}, A: []uint64{r.U64()}})
+			case 1:
+				steps = append(steps, Step{Op: "rt", S: []int{d, b}, A: []uint64{uint64(r.Intn(4)), uint64(r.Intn(5)), r.U64(), 0}})
+			case 2:
+				steps = append(steps, Step{Op: "binop", S: []int{d, b, w.nonEmptySlot(r)}, A: []uint64{uint64(r.Intn(4))}})
+			case 3:
+				steps = append(steps, Step{Op: "clone", S: []int{d, b}}, Step{Op: "ibinop", S: []int{d, w.nonEmptySlot(r)}, A: []uint64{uint64(r.Intn(4))}})
+			case 4:
+				steps = append(steps, Step{Op: "agg", S: []int{d, b, w.nonEmptySlot(r), b}, A: []uint64{uint64(r.Intn(7)), uint64(workerPool[r.Intn(len(workerPool))])}})
+			default:
+				steps = append(steps, Step{Op: "runopt", S: []int{b}}, Step{Op: "freeze", S: []int{d, b}, A: []uint64{r.U64()}})
+			}
+			w.pending = append(w.pending, steps[1:]...)
+			w.probe("wide-scenario")
+			return steps[0], true
+		},
+		exec: func(w *World, st *Step) {}})
+}
+
 func itoa(n int) string {
 	if n == 0 {
 		return "0"
